@@ -624,6 +624,8 @@ def enc_label(label) -> str:
         return f'(Deliver {T.N(box)} {enc_flags(fl)} {T.boolean(recent)} {T.N(content)})'
     if k == 'createbox':
         return f'(CreateBox {T.N(label[1])} {T.boolean(label[2])})'
+    if k == 'createmaildir':
+        return f'(CreateMaildir {T.N(label[1])})'
     raise ValueError(label)
 
 
@@ -693,12 +695,31 @@ def enc_nl(pairs) -> str:
 def enc_box_obs(o, heavy=True) -> str:
     msgs = T.lst('(' + ', '.join([T.N(u), enc_flags(f), T.boolean(r)]) + ')'
                  for u, f, r in o['msgs']) if o['msgs'] else '(@nil (N * flags * bool))'
-    if heavy:
+    if heavy and o.get('uids') is not None:
         log = ('(Some (' + ', '.join([enc_nn(o['uids']), enc_nl(o['updates']),
                                       enc_nl(o['expunges']), T.nlist(o['order'])]) + '))')
     else:
         log = 'None'
-    return '(' + ', '.join([T.N(o['max_uid']), msgs, T.N(o['highest']), log]) + ')'
+    highest = 'None' if o.get('highest') is None else f'(Some {T.N(o["highest"])})'
+    return '(' + ', '.join([T.N(o['max_uid']), msgs, highest, log]) + ')'
+
+
+NO_BELIEFS = '(@nil (N * list (N * flags)))'
+
+
+def enc_beliefs(obs, last=None, full=True) -> str:
+    """obs['beliefs'] = {session: [(uid, flags without \\Recent)]}: what the shadow client of
+    the acting connection holds after the step (store_check.Monitored.hook); compared with
+    the model's client (System.cfs_step).  Written when it changed or on a full step."""
+    bel = (obs or {}).get('beliefs') or {}
+    parts = []
+    for s, lst in bel.items():
+        enc = T.lst(T.pair(T.N(u), enc_flags(f)) for u, f in lst) if lst else '(@nil (N * flags))'
+        if full or last is None or last.get(('c', s)) != enc:
+            parts.append(T.pair(T.N(s), enc))
+        if last is not None:
+            last[('c', s)] = enc
+    return T.lst(parts) if parts else NO_BELIEFS
 
 
 def enc_step(label, responses, obs, last=None, full=True) -> str:
@@ -721,7 +742,7 @@ def enc_step(label, responses, obs, last=None, full=True) -> str:
             last[('b', n)] = light
     sels_t = T.lst(sels) if sels else '(@nil (N * option sel_obs))'
     boxes_t = T.lst(boxes) if boxes else '(@nil (N * box_obs))'
-    return f'({enc_label(label)}, MkObs {out} {sels_t} {boxes_t})'
+    return f'({enc_label(label)}, MkObs {out} {sels_t} {boxes_t} {enc_beliefs(obs, last, full)})'
 
 
 def enc_case(setup, steps, light: bool = False) -> str:
@@ -736,7 +757,7 @@ def enc_case(setup, steps, light: bool = False) -> str:
             label, responses, _obs = s
             out = T.lst(enc_resp(r) for r in responses) if responses else '(@nil resp)'
             parts.append(f'({enc_label(label)}, MkObs {out} (@nil (N * option sel_obs)) '
-                         f'(@nil (N * box_obs)))')
+                         f'(@nil (N * box_obs)) {NO_BELIEFS})')
         else:
             parts.append(enc_step(*s, last=last, full=(final or i % 8 == 7)))
     body = T.lst(parts) if parts else '(@nil (label * step_obs))'
